@@ -100,6 +100,9 @@ type c13Case struct {
 	Method  string   `json:"method"`
 	Flusher bool     `json:"underlying_is_flusher"`
 	Ops     []string `json:"ops"`
+	// Requests: the operations the handlers of successive requests to one application instance perform, each
+	// on its own request's writer
+	Requests [][]string `json:"operations_per_request_on_one_instance,omitempty"`
 }
 
 func c13SweepClass(st int) string {
@@ -170,6 +173,12 @@ func c13Exec(method string, flusher bool, ops []int) (key string, bad string) {
 	}
 	w := flamego.NewResponseWriter(method, under)
 	m := &rwModel{head: method == http.MethodHead, flusher: flusher, limit: limit}
+	return c13Drive(w, spy, m, method, ops)
+}
+
+// c13Drive performs ops on w (a writer over spy, fresh as far as its user can tell) next to the model m and
+// compares after every step.
+func c13Drive(w flamego.ResponseWriter, spy *rwSpy, m *rwModel, method string, ops []int) (key string, bad string) {
 	var hookLog []string
 	var mkHook func(id int) flamego.BeforeFunc
 	mkHook = func(id int) flamego.BeforeFunc {
@@ -286,6 +295,112 @@ func c13Exec(method string, flusher bool, ops []int) (key string, bad string) {
 	return key, ""
 }
 
+// c13FlameSeq: the writer the handlers of a request see is a writer of that request alone. One application
+// instance serves reqs in order (alternating between two routes); the handler of request i performs reqs[i]
+// on c.ResponseWriter() next to a fresh model: status, size, pending hooks and hook observations start from
+// nothing whatever earlier requests did with their writers (hooks registered and never triggered included).
+func c13FlameSeq(method string, reqs [][]int) (bad string, at int) {
+	f := flamego.NewWithLogger(io.Discard)
+	var cur []int
+	var spy *rwSpy
+	var m *rwModel
+	var res string
+	h := func(c flamego.Context) {
+		_, res = c13Drive(c.ResponseWriter(), spy, m, method, cur)
+	}
+	f.Routes("/a", method, h)
+	f.Routes("/b/{x}", method, h)
+	for i, ops := range reqs {
+		cur, res = ops, ""
+		spy = &rwSpy{hdr: http.Header{}, limit: -1}
+		m = &rwModel{head: method == http.MethodHead, limit: -1}
+		path := "/a"
+		if i%2 == 1 {
+			path = "/b/v"
+		}
+		var pan interface{}
+		func() {
+			defer func() { pan = recover() }()
+			f.ServeHTTP(spy, newReq(method, path))
+		}()
+		if pan != nil {
+			return fmt.Sprintf("request %d: ServeHTTP panicked: %v", i+1, pan), i
+		}
+		if res != "" {
+			return fmt.Sprintf("request %d of the instance: %s", i+1, res), i
+		}
+		if strings.Join(spy.log, "|") != strings.Join(m.sent, "|") {
+			return fmt.Sprintf("request %d: after the chain ended the underlying writer had received %v, model %v", i+1, spy.log, m.sent), i
+		}
+	}
+	return "", -1
+}
+
+// c13FlameSeqs enumerates the request sequences: pairs of op sequences up to pairLen, triples up to tripleLen.
+func c13FlameSeqs(r *core.Run) {
+	pairLen, tripleLen := 2, 1
+	if r.Thorough() {
+		pairLen, tripleLen = 3, 2
+	}
+	r.Bounds["request_sequences_on_one_instance"] = fmt.Sprintf("GET and HEAD; every pair of requests whose handlers perform <=%d operations each and every triple with <=%d each on the request's own writer", pairLen, tripleLen)
+	seqs := func(maxLen int) [][]int {
+		out := [][]int{{}}
+		for from, l := 0, 0; l < maxLen; l++ {
+			to := len(out)
+			for _, pre := range out[from:to] {
+				for op := range c13OpNames {
+					out = append(out, append(append([]int{}, pre...), op))
+				}
+			}
+			from = to
+		}
+		return out
+	}
+	type job struct{ reqs [][]int }
+	var jobs [][][]int
+	for _, a := range seqs(pairLen) {
+		for _, b := range seqs(pairLen) {
+			jobs = append(jobs, [][]int{a, b})
+		}
+	}
+	t := seqs(tripleLen)
+	for _, a := range t {
+		for _, b := range t {
+			for _, c := range t {
+				jobs = append(jobs, [][]int{a, b, c})
+			}
+		}
+	}
+	r.Parallel(func(wk, nw int, l *core.Local) {
+		for ji := wk; ji < len(jobs); ji += nw {
+			if (ji/nw)%512 == 0 && r.Expired() {
+				return
+			}
+			for _, method := range []string{"GET", "HEAD"} {
+				l.Evals++
+				l.Traces++
+				l.States++
+				l.Transitions += int64(len(jobs[ji]))
+				l.NonTrivial++
+				l.Extra["request_sequences_on_one_instance"]++
+				if bad, at := c13FlameSeq(method, jobs[ji]); bad != "" {
+					var names [][]string
+					for _, q := range jobs[ji][:at+1] {
+						names = append(names, c13Names(q))
+					}
+					l.Class("mismatch")
+					l.Violate("request-writer-not-fresh/"+method, bad, c13Case{Method: method, Requests: names})
+				} else {
+					l.Class("request-sequence")
+				}
+			}
+		}
+	})
+	if r.Expired() {
+		r.NotExhaustive("internal deadline (request sequences)")
+	}
+}
+
 func c13Names(ops []int) []string {
 	out := make([]string, len(ops))
 	for i, o := range ops {
@@ -301,7 +416,7 @@ func c13Run(r *core.Run) {
 		depth, treeDepth = 9, 7
 		r.SetBudget(9 * time.Minute)
 	}
-	r.Rule = "engine B: BFS over histories of {WriteHeader(201),WriteHeader(404),Write(ab),Write(''),Flush,Before(h1),Before(h2),io.WriteString(c),Before(h3 that registers a further hook when it runs)} replayed on a fresh flamego.NewResponseWriter over a spy; state key = (status,size,pending hooks,what the spy received,hook observations); model+invariants compared after every transition; plus a status sweep (every status 100..999 in place of 201 in all short sequences, compared step by step); non-trivial = transition taken when a status had already been sent or a hook was pending (the cases where 'once' logic matters)"
+	r.Rule = "engine B: BFS over histories of {WriteHeader(201),WriteHeader(404),Write(ab),Write(''),Flush,Before(h1),Before(h2),io.WriteString(c),Before(h3 that registers a further hook when it runs)} replayed on a fresh flamego.NewResponseWriter over a spy; state key = (status,size,pending hooks,what the spy received,hook observations); model+invariants compared after every transition; plus sequences of requests on one application instance (each handler drives its own request's writer next to a fresh model); plus a status sweep (every status 100..999 in place of 201 in all short sequences, compared step by step); non-trivial = transition taken when a status had already been sent or a hook was pending (the cases where 'once' logic matters)"
 	r.Bounds["bfs_depth"] = depth
 	r.Bounds["undeduplicated_tree_depth"] = treeDepth
 	r.Bounds["methods"] = []string{"GET", "HEAD", "POST"}
@@ -395,6 +510,7 @@ func c13Run(r *core.Run) {
 	}
 	r.Notes["bfs_depth_completed"] = completed
 	r.Merge(total)
+	c13FlameSeqs(r)
 	// status sweep: every status 100..999 in place of 201 in every sequence of up to sweepDepth operations
 	sweepDepth := 3
 	if r.Thorough() {
@@ -450,6 +566,20 @@ func c13Replay(raw json.RawMessage) (bool, string) {
 	var c c13Case
 	if err := json.Unmarshal(raw, &c); err != nil {
 		return false, err.Error()
+	}
+	if len(c.Requests) > 0 {
+		var reqs [][]int
+		for _, names := range c.Requests {
+			q := make([]int, len(names))
+			for i, n := range names {
+				if q[i] = c13OpIndex(n); q[i] < 0 {
+					return false, "unknown op " + n
+				}
+			}
+			reqs = append(reqs, q)
+		}
+		bad, _ := c13FlameSeq(c.Method, reqs)
+		return bad != "", bad
 	}
 	ops := make([]int, len(c.Ops))
 	for i, n := range c.Ops {
